@@ -1,5 +1,6 @@
 import UtlsVerif.Line
 import UtlsVerif.Drv.C24
+import UtlsVerif.Drv.C36
 /-! `utlsmodel` — reads case lines on stdin, prints one verdict per line. Core Lean only. -/
 open Line
 
@@ -8,6 +9,8 @@ def dispatch (c : Case) : Verdict :=
   | "varint" => Drv.C24.varint c
   | "varint_read" => Drv.C24.varintRead c
   | "tps" => Drv.C24.tps c
+  | "lru" => Drv.C36.lru c
+  | "lru_conc" => Drv.C36.lruConc c
   | f => .bad s!"unknown family {f}"
 
 partial def loop (h : IO.FS.Stream) (out : IO.FS.Stream) : IO Unit := do
